@@ -7,7 +7,7 @@ CONSTANTS
   Proposers = {"p1"}
   Prevs = {"b1"}
   Depth = 3
-  MaxSteps = 5
+  MaxSteps = 4
 VIEW View
 INVARIANTS TypeOK ByPointSame ByPointWithin
 PROPERTIES BallotKept ProposalKept
